@@ -1616,6 +1616,77 @@ func ruleG11(r *Run) {
 		}
 	}
 	r.Check(strict && enabled, "timeout rejection gate", ret.Pos(), "timeout > 0 && delay > timeout", "ErrTimeout is not returned exactly under `timeout > 0 && delay > timeout`: callers are rejected although the wait they need does not exceed the configured timeout (or never rejected)")
+	// a rejected caller admits nothing: the rejection comes before the reservation (the compare-and-swap on next)
+	var cas *ast.CallExpr
+	p.deepInspect(info, fd.Body, 1, func(ci *types.Info, n ast.Node) bool {
+		if c, ok := n.(*ast.CallExpr); ok {
+			if f := Callee(ci, c); f != nil && f.Pkg() != nil && f.Pkg().Path() == "sync/atomic" && strings.HasPrefix(f.Name(), "CompareAndSwap") && cas == nil {
+				cas = c
+			}
+		}
+		return true
+	})
+	if cas != nil && p.Fset.File(cas.Pos()) == p.Fset.File(ret.Pos()) && clampFn == fd {
+		r.Check(ret.Pos() < cas.Pos(), "a rejected caller is not charged", ret.Pos(), "ErrTimeout is returned before the reservation", "Acquire moves `next` forward (the compare-and-swap) and only then finds that the caller would wait longer than the timeout: the rejected caller has consumed its permits all the same, so callers after it are delayed or rejected although nothing was admitted")
+	}
+	// the burst is capped BEFORE the call is charged: at the clamp the permits do not yet include the tokens of this call
+	var tokens types.Object
+	for _, pv := range paramsOf(info, fd.Type) {
+		if b, ok := pv.Type().Underlying().(*types.Basic); ok && b.Info()&types.IsInteger != 0 {
+			tokens = pv
+		}
+	}
+	if tokens != nil && clampSeen && clampFn == fd {
+		chargedBefore, chargedAfter := false, false
+		ast.Inspect(fd.Body, func(n ast.Node) bool {
+			if id, ok := n.(*ast.Ident); ok && info.Uses[id] == tokens {
+				if id.Pos() < cpos {
+					chargedBefore = true
+				} else {
+					chargedAfter = true
+				}
+			}
+			return true
+		})
+		r.Check(!chargedBefore && chargedAfter, "the burst is capped before the call is charged", cpos, "tokens subtracted after the clamp", "the tokens of the call are subtracted before the accumulated permits are capped to maxPermits: after an idle period the cap restores the full burst and the call itself was free - a 200-token call plus the burst are admitted at once")
+	}
+	// after the wait the caller's own context decides: a caller whose context ended while it waited is not admitted
+	waited := false
+	var last *ast.ReturnStmt
+	for _, st := range fd.Body.List {
+		ast.Inspect(st, func(n ast.Node) bool {
+			if u, ok := n.(*ast.UnaryExpr); ok && u.Op == token.ARROW {
+				if c, ok := ast.Unparen(u.X).(*ast.CallExpr); ok && methodName(c) == "Done" {
+					waited = true
+				}
+			}
+			return true
+		})
+		if rs, ok := st.(*ast.ReturnStmt); ok && waited {
+			last = rs
+		}
+	}
+	if waited {
+		okErr := false
+		if last != nil && len(last.Results) == 1 {
+			if c, ok := ast.Unparen(last.Results[0]).(*ast.CallExpr); ok && methodName(c) == "Err" {
+				if se, ok := ast.Unparen(c.Fun).(*ast.SelectorExpr); ok {
+					if o := identObj(info, se.X); o != nil {
+						for _, pv := range paramsOf(info, fd.Type) {
+							if pv == o {
+								okErr = true
+							}
+						}
+					}
+				}
+			}
+		}
+		pos := fd.Pos()
+		if last != nil {
+			pos = last.Pos()
+		}
+		r.Check(okErr, "a caller whose context ended while waiting is not admitted", pos, "return ctx.Err() of the caller's context after the wait", "after waiting on the derived context Acquire returns nil whatever ended the wait: when the caller's own context is cancelled or expires the wait ends at once and the call is admitted immediately - a thousand cancelled callers pass a 10/s limiter in a millisecond")
+	}
 }
 
 func exprOrNil(n ast.Node) ast.Expr {
